@@ -202,11 +202,11 @@ class Airplane:
 
         elif self.angular_rate_frame == "wind": # Wind frame
             try:
-                self.q_to_wind = quat_conj(euler_to_quat([0.0, m.radians(alpha), m.radians(beta)]))
+                self.q_to_wind = quat_conj(euler_to_quat([0.0, m.radians(alpha), -m.radians(beta)]))
             except:
                 alpha = m.atan2(v_value[2], v_value[0])
                 beta = m.asin(v_value[1]/m.sqrt(v_value[0]**2+v_value[1]**2+v_value[2]**2))
-                self.q_to_wind = quat_conj(euler_to_quat([0.0, alpha, beta]))
+                self.q_to_wind = quat_conj(euler_to_quat([0.0, alpha, -beta]))
             self.w = quat_inv_trans(self.q_to_wind, w_raw)
 
         else:
